@@ -172,6 +172,7 @@ class Run:
         self.timeout = timeout
         self.env = env or {}
         self.fuzz = fuzz  # dict for libFuzzer runs: {runs:, max_len:, dict:, seeds: [paths]}
+        self.known = []   # signature substrings of open findings (filled by the driver): excluded from the search, still reported
 
 
 def run_one(job):
@@ -188,6 +189,8 @@ def run_one(job):
         return run_fuzz(run, shard, tier, seed, workdir, tag, out, env)
     cmd = [run.target.bin, "--tier", tier, "--seed", str(seed), "--shard", str(shard), "--nshards", str(run.nshards),
            "--out", out] + run.args
+    if run.known:
+        cmd += ["--known", "|".join(run.known)]
     if case is not None:
         cmd += ["--case", case]
     if run.target.mode in ("rc", "o0"):
@@ -301,7 +304,9 @@ def check_property(pid, tier, seed, replay=None, verbose=True):
         replay_case = json.load(open(replay))
     plan = spec["plan"](tier, seed, workdir, replay_case.get("case", replay_case) if replay_case else None)  # -> list[Run]
     targets = []
+    open_known = [k for k in load_known() if k.get("property") == pid and k.get("status") == "open"]
     for r in plan:
+        r.known = [s for k in open_known for s in k.get("skip", [])]
         if r.target not in targets:
             targets.append(r.target)
 
